@@ -13,13 +13,21 @@
     specification source, node, bindings of a machine, [None] when absent.
 
     Outside the model ([Unmodelled]): operations on the two service
-    machines.  Outside the property's histories: a message to the captain
-    that is no operation (the captain keeps it and is inert from then on;
-    its state is not part of what a crew reports) - hence [wedged = false]
-    in [C15_restart_unobservable]. *)
+    machines.  A message to the captain that is no crew operation is INSIDE
+    the property's histories: since the repair of D56 the captain's action
+    drops the message's binding on every path (NewCaptainSpec,
+    sio/captainspec.go), so the captain holds nothing between two messages
+    and never becomes inert.  In the model the field [wedged] (the inert
+    captain of the code before that repair) is set by no step:
+    [C15_captain_never_inert], and [C15_restart_unobservable] has no
+    hypothesis on the captain.  (The captain's state is not part of what a
+    crew reports, so a store cannot restore it; that is why, for crew VALUES
+    that no history reaches, [C15_restart_unobservable_any_crew] still asks
+    for [wedged = false], and [C15_any_crew_needs_captain] shows that it
+    must.) *)
 From Coq Require Import List String Permutation.
 From Sheens Require Import Model.SioRecorder Spec.SioSpec Proofs.SioRouting Proofs.SioPersist Proofs.SioRestart
-     Proofs.SioCommute Proofs.SioRecorderFacts Proofs.SioHistory.
+     Proofs.SioCommute Proofs.SioRecorderFacts Proofs.SioHistory Proofs.SioUnwedged.
 Import ListNotations.
 Open Scope string_scope.
 
@@ -57,19 +65,40 @@ Theorem C15_boot_equiv : forall fuel h c store,
   /\ forall m, live_view S (boot store) m = live_view S c m.
 Proof. exact (boot_equiv S react decode_src src_eqb ord ord_perm src_eqb_sound react_named). Qed.
 
+(** the captain of a crew that a history reaches is never inert: no message,
+    operation or not, and no direct call leaves anything in its bindings
+    (the repair of D56) *)
+Theorem C15_captain_never_inert : forall fuel h c store,
+  run_history fuel (init_crew S, []) h = Done (c, store) -> wedged S c = false.
+Proof. exact (reachable_unwedged S react decode_src src_eqb ord). Qed.
+
 (** ... the same store keeps tracking it ([inv]: the invariant behind
     [C15_store_tracks_crew]), and on every later history it produces the same
     outputs (Result.Emitted of every message) and ends with the same machines
-    as the original, under the same schedule [ord] *)
+    as the original, under the same schedule [ord] ([core_eq]: same machines,
+    same captain) *)
 Theorem C15_restart_unobservable : forall fuel h c store,
   run_history fuel (init_crew S, []) h = Done (c, store) -> ends_with_msg S h ->
+  core_eq S (boot store) c
+  /\ inv S (boot store) store
+  /\ forall fuel' h2,
+       orel (outputs_sim S) (run_outputs S react decode_src src_eqb ord fuel' c h2)
+            (run_outputs S react decode_src src_eqb ord fuel' (boot store) h2).
+Proof. exact (restart_unobservable_reachable S react decode_src src_eqb ord ord_perm src_eqb_sound react_named). Qed.
+
+(** the same for ANY crew value, reachable or not: its machines a key-sorted
+    list of machines at named nodes ([good]), nothing cached (a message
+    boundary), a store that tracks it ([inv]).  The captain's state is not
+    part of what a crew reports, so here the hypothesis on the captain stays *)
+Theorem C15_restart_unobservable_any_crew : forall c store,
+  good S c -> inv S c store -> cache S c = [] ->
   wedged S c = false ->
   core_eq S (boot store) c
   /\ inv S (boot store) store
   /\ forall fuel' h2,
        orel (outputs_sim S) (run_outputs S react decode_src src_eqb ord fuel' c h2)
             (run_outputs S react decode_src src_eqb ord fuel' (boot store) h2).
-Proof. exact (restart_unobservable S react decode_src src_eqb ord ord_perm src_eqb_sound react_named). Qed.
+Proof. exact (restart_unobservable_any_crew S react decode_src src_eqb ord ord_perm). Qed.
 
 (** the part of the commutation clause that is a theorem: whatever order the
     map iteration gives the machines of a round, the same machines see the
@@ -92,7 +121,9 @@ End C15.
 Print Assumptions C15_store_tracks_crew.
 Print Assumptions C15_store_tracks_crew_pending.
 Print Assumptions C15_boot_equiv.
+Print Assumptions C15_captain_never_inert.
 Print Assumptions C15_restart_unobservable.
+Print Assumptions C15_restart_unobservable_any_crew.
 Print Assumptions C15_round_order_irrelevant.
 
 (** Full strength across schedules is false without the property's
@@ -102,11 +133,26 @@ Print Assumptions C15_round_order_irrelevant.
     against reversed order); what is proved is the same-schedule theorem
     above plus [C15_round_order_irrelevant]; across schedules the property is
     observed on the implementation (second crew under Go's own random map
-    order, histories whose outcome does not depend on the order). *)
-Definition C15_restart_two_schedules_full : Prop := restart_two_schedules_full.
+    order, histories whose outcome does not depend on the order).  Like
+    [C15_restart_unobservable] the statement has no hypothesis on the captain
+    (with that hypothesis, as it stood before the repair of D56, it is the
+    same proposition: [restart_two_schedules_full_iff]). *)
+Definition C15_restart_two_schedules_full : Prop := restart_two_schedules_full_reachable.
 Theorem C15_restart_two_schedules_refuted : ~ C15_restart_two_schedules_full.
-Proof. exact restart_two_schedules_refuted. Qed.
+Proof. exact restart_two_schedules_reachable_refuted. Qed.
 Print Assumptions C15_restart_two_schedules_refuted.
+
+(** the hypothesis on the captain of [C15_restart_unobservable_any_crew]
+    cannot be dropped: the empty crew VALUE with an inert captain (no history
+    reaches it) and the empty store meet the other hypotheses, and the crew
+    booted from the store executes an operation that this value ignores *)
+Theorem C15_any_crew_needs_captain :
+  good rcfg wedged_empty_crew /\ inv rcfg wedged_empty_crew [] /\ cache rcfg wedged_empty_crew = []
+  /\ ~ core_eq rcfg (r_boot []) wedged_empty_crew
+  /\ exists h2, ~ orel (outputs_sim rcfg) (run_outputs rcfg rreact rdecode rcfg_eqb ord_id 10 wedged_empty_crew h2)
+                       (run_outputs rcfg rreact rdecode rcfg_eqb ord_id 10 (r_boot []) h2).
+Proof. exact any_crew_needs_unwedged. Qed.
+Print Assumptions C15_any_crew_needs_captain.
 
 (** the code before the repairs D13 and D42 (SetMachine did not apply the
     state of an existing machine; creating a machine without specification
@@ -144,7 +190,8 @@ Example C15_nonvacuous :
        = Some (Some (mk_rcfg "L2" RRev),
                mk_ms "flip" [("by", JStr "L2"); ("log", JArr [JArr [JStr "all"; JNull]])])
     /\ store_view rcfg store "a" = live_view rcfg c "a"
-    /\ machines rcfg (r_boot store) = machines rcfg c.
+    /\ machines rcfg (r_boot store) = machines rcfg c
+    /\ core_eq rcfg (r_boot store) c.
 Proof.
   destruct (r_run_history 50 (init_crew rcfg, []) c15_history) as [[c store]| |] eqn:H;
     try (vm_compute in H; discriminate).
@@ -152,8 +199,56 @@ Proof.
   assert (E : ends_with_msg rcfg c15_history).
   { exists (removelast c15_history), (JObj [("tag", JStr "all")]). reflexivity. }
   split; [exact E|].
+  pose proof (C15_captain_never_inert rcfg rreact rdecode rcfg_eqb ord_id _ _ _ _ H) as W.
   pose proof (C15_store_tracks_crew rcfg rreact rdecode rcfg_eqb ord_id ord_id_perm rcfg_eqb_sound _ _ _ _ H E "a") as T.
   pose proof (C15_boot_equiv rcfg rreact rdecode rcfg_eqb ord_id ord_id_perm rcfg_eqb_sound rreact_named _ _ _ _ H E) as [B _].
+  pose proof (C15_restart_unobservable rcfg rreact rdecode rcfg_eqb ord_id ord_id_perm rcfg_eqb_sound rreact_named
+                _ _ _ _ H E) as [R _].
+  split; [exact W|].
   vm_compute in H. injection H as <- <-.
-  split; [reflexivity|]. split; [reflexivity|]. split; [exact T|exact B].
+  split; [reflexivity|]. split; [exact T|]. split; [exact B|exact R].
+Qed.
+
+(** a history the theorems did not cover before the repair of D56: a message
+    to the captain that is no crew operation (and one that is no object)
+    comes first.  The captain stays in service: the operation that follows
+    creates its machine, the store tracks the crew, and the crew booted from
+    the store runs a later history to the same outputs and the same machines *)
+Definition c15_history_not_an_op : list (hop rcfg) :=
+  [OpMsg (JObj [("tag", JStr "noise"); ("to", JStr "captain")]);
+   OpMsg (JObj [("to", JStr "captain"); ("update", JObj [("a", c15_spec "L0" "fwd")])]);
+   OpMsg (JObj [("tag", JStr "one"); ("then", JArr [JObj [("tag", JStr "two"); ("to", JStr "captain")]]);
+                ("to", JStr "a")])].
+Definition c15_later : list (hop rcfg) :=
+  [OpMsg (JObj [("to", JStr "captain"); ("update", JObj [("b", c15_spec "L1" "fwd")])]);
+   OpMsg (JObj [("tag", JStr "all"); ("then", JArr [JStr "echo"])])].
+
+Example C15_nonvacuous_not_an_op :
+  exists c store,
+    r_run_history 50 (init_crew rcfg, []) c15_history_not_an_op = Done (c, store)
+    /\ wedged rcfg c = false
+    /\ live_view rcfg c "a"
+       = Some (Some (mk_rcfg "L0" RFwd),
+               mk_ms "flip" [("by", JStr "L0"); ("log", JArr [JArr [JStr "one"; JNull]])])
+    /\ store_view rcfg store "a" = live_view rcfg c "a"
+    /\ core_eq rcfg (r_boot store) c
+    /\ exists c2 outs,
+         run_outputs rcfg rreact rdecode rcfg_eqb ord_id 50 (r_boot store) c15_later = Done (c2, outs)
+         /\ run_outputs rcfg rreact rdecode rcfg_eqb ord_id 50 c c15_later = Done (c2, outs)
+         /\ is_some (live_view rcfg c2 "b") = true
+         /\ outs = [[]; [[JStr "echo"]; [JStr "echo"]]].
+Proof.
+  destruct (r_run_history 50 (init_crew rcfg, []) c15_history_not_an_op) as [[c store]| |] eqn:H;
+    try (vm_compute in H; discriminate).
+  exists c, store. split; [reflexivity|].
+  assert (E : ends_with_msg rcfg c15_history_not_an_op).
+  { eexists (removelast c15_history_not_an_op), _. reflexivity. }
+  pose proof (C15_captain_never_inert rcfg rreact rdecode rcfg_eqb ord_id _ _ _ _ H) as W.
+  pose proof (C15_store_tracks_crew rcfg rreact rdecode rcfg_eqb ord_id ord_id_perm rcfg_eqb_sound _ _ _ _ H E "a") as T.
+  pose proof (C15_restart_unobservable rcfg rreact rdecode rcfg_eqb ord_id ord_id_perm rcfg_eqb_sound rreact_named
+                _ _ _ _ H E) as (R & _ & _).
+  split; [exact W|].
+  vm_compute in H. injection H as <- <-.
+  split; [reflexivity|]. split; [exact T|]. split; [exact R|].
+  vm_compute. eexists _, _. repeat split.
 Qed.
